@@ -216,6 +216,7 @@ def decode_bytes(fdp):
 
 
 FUZZ_DECODERS = {"archive": decode_bytes}
+FUZZ = ["archive"]      # clauses that get an atheris campaign in the thorough tier
 
 CLAUSES = [
     Clause("archive", history(30), check_history, quick=1500, thorough=6000, quick_shards=4, simplify=simplify),
